@@ -344,4 +344,6 @@ MUTANTS = [
     ('remoter-recv-drops-ehostdown', 'hio/core/tcp/serving.py',
      "                                errno.ENETDOWN,\n                                errno.EHOSTDOWN,\n                                errno.ETIMEDOUT,\n                                errno.ECONNREFUSED):\n                self.cutoff = True  # this signals need to close/reopen connection\n                return bytes()  # data empty\n            else:  # unexpected error",
      "                                errno.ENETDOWN,\n                                errno.ETIMEDOUT,\n                                errno.ECONNREFUSED):\n                self.cutoff = True  # this signals need to close/reopen connection\n                return bytes()  # data empty\n            else:  # unexpected error"),
+    ('remotertls-wirelog-asks-socket-for-peer', 'hio/core/tcp/serving.py',
+     "                self.wl.writeRx(data, who=self.ca)", "                self.wl.writeRx(data, who=self.cs.getpeername())"),
 ]
